@@ -7,23 +7,76 @@ let rec pos_of_int n = if n = 1 then XH else if n land 1 = 0 then XO (pos_of_int
 let z_of_int n = if n = 0 then Z0 else if n > 0 then Zpos (pos_of_int n) else Zneg (pos_of_int (-n))
 let rec int_of_pos = function XH -> 1 | XO p -> 2 * int_of_pos p | XI p -> 2 * int_of_pos p + 1
 let int_of_z = function Z0 -> 0 | Zpos p -> int_of_pos p | Zneg p -> - (int_of_pos p)
+let zi s = z_of_int (int_of_string s)
+let ozi s = if s = "-" then None else Some (zi s)
+let soz = function None -> "-" | Some z -> string_of_int (int_of_z z)
 
-let bits_of_string s = List.init (String.length s) (fun i -> s.[i] = '1')
+(* Coq strings (inductive, no ExtrOcamlString) *)
+let ascii_of_char c =
+  let n = Char.code c in
+  Ascii (n land 1 <> 0, n land 2 <> 0, n land 4 <> 0, n land 8 <> 0, n land 16 <> 0, n land 32 <> 0, n land 64 <> 0, n land 128 <> 0)
+let coq_string s =
+  let r = ref EmptyString in
+  for i = String.length s - 1 downto 0 do r := String (ascii_of_char s.[i], !r) done; !r
+
+let bits_of_string s = if s = "-" then [] else List.init (String.length s) (fun i -> s.[i] = '1')
 let rows_of_string s = if s = "-" then [] else List.map bits_of_string (String.split_on_char '/' s)
 let string_of_zrows rows =
   String.concat "/" (List.map (fun r -> String.concat "," (List.map (fun z -> string_of_int (int_of_z z)) r)) rows)
-let zlist_of_string s = if s = "-" || s = "" then [] else List.map (fun t -> z_of_int (int_of_string t)) (String.split_on_char ',' s)
+let zlist_of_string s = if s = "-" || s = "" then [] else List.map zi (String.split_on_char ',' s)
 let string_of_zlist l = if l = [] then "-" else String.concat "," (List.map (fun z -> string_of_int (int_of_z z)) l)
 let string_of_bits l = if l = [] then "-" else String.concat "" (List.map (fun b -> if b then "1" else "0") l)
+let string_of_rows rows = String.concat "/" (List.map string_of_bits rows)
 let string_of_bool b = if b then "1" else "0"
+let bytes_of_hex s =
+  List.init (String.length s / 2) (fun i -> z_of_int (int_of_string ("0x" ^ String.sub s (2 * i) 2)))
+
+let string_of_exn = function
+  | ValueError -> "ValueError" | DataOverflow -> "DataOverflow" | UnicodeErr -> "UnicodeErr" | LookupErr -> "LookupErr"
+  | IndexErr -> "IndexError" | KeyErr -> "KeyError" | TypeErr -> "TypeError" | AssertErr -> "AssertionError"
+  | AttributeErr -> "AttributeError"
+
+let codec_of_string s =
+  if s = "U" then CRUnicode else if s = "L" then CRLookup
+  else CROk (bytes_of_hex (String.sub s 1 (String.length s - 1)))
+let enc_of name canon =
+  if name = "-" then None
+  else Some { e_name = coq_string name; e_canon = (if canon = "-" then None else Some (coq_string canon)) }
+
+(* part token:  B;hex;mode;encname;canon   |   T;given;latin1;sjis;utf8;mode;encname;canon *)
+let part_of_string s =
+  match String.split_on_char ';' s with
+  | ["B"; hex; mode; en; ec] -> { p_content = PBytes (bytes_of_hex hex); p_mode = ozi mode; p_enc = enc_of en ec }
+  | ["T"; g; l; sj; u; mode; en; ec] ->
+      { p_content = PText (codec_of_string g, codec_of_string l, codec_of_string sj, codec_of_string u);
+        p_mode = ozi mode; p_enc = enc_of en ec }
+  | _ -> failwith ("bad part " ^ s)
+
+let obool s = if s = "-" then None else Some (s = "1")
+
+let string_of_segment s =
+  Printf.sprintf "%d,%d,%s" (int_of_z s.s_mode) (int_of_z s.s_count) (string_of_bits s.s_bits)
+let string_of_code c =
+  Printf.sprintf "OK %d %s %d %s %s" (int_of_z c.c_version) (soz c.c_error) (int_of_z c.c_mask)
+    (string_of_rows c.c_matrix) (String.concat ";" (List.map string_of_segment c.c_segments))
 
 let handle toks =
   match toks with
   | ["classify"; size; border; rows] ->
-      string_of_zrows (classify_matrix (z_of_int (int_of_string size)) (z_of_int (int_of_string border)) (rows_of_string rows))
-  | ["align_aux"; size] -> string_of_zrows (align_aux_matrix (z_of_int (int_of_string size)))
-  | ["kf_fmt_col"; size; i; j] ->
-      string_of_bool (kf_fmt_col (z_of_int (int_of_string size)) (z_of_int (int_of_string i)) (z_of_int (int_of_string j)))
+      string_of_zrows (classify_matrix (zi size) (zi border) (rows_of_string rows))
+  | ["align_aux"; size] -> string_of_zrows (align_aux_matrix (zi size))
+  | ["kf_fmt_col"; size; i; j] -> string_of_bool (kf_fmt_col (zi size) (zi i) (zi j))
+  | "encode" :: error :: version :: mode :: mask :: eci :: micro :: boost :: parts ->
+      (match encode (List.map part_of_string parts) (ozi error) (ozi version) (ozi mode) (ozi mask) (eci = "1") (obool micro) (boost = "1") with
+       | Ok c -> string_of_code c
+       | Err e -> "ERR " ^ string_of_exn e)
+  | ["find_mode"; hex] -> string_of_int (int_of_z (find_mode (bytes_of_hex hex)))
+  | ["mask_scores"; rows] ->
+      let r = rows_of_string rows in
+      let (((a, b), c), d) = mask_scores (z_of_int (List.length r)) r in
+      Printf.sprintf "%d,%d,%d,%d" (int_of_z a) (int_of_z b) (int_of_z c) (int_of_z d)
+  | ["micro_score"; rows] ->
+      let r = rows_of_string rows in string_of_int (int_of_z (evaluate_micro_mask (z_of_int (List.length r)) r))
   | _ -> "ERR unknown request"
 
 let () =
